@@ -65,7 +65,7 @@ def _add_record(self: "ProvBundle", record: "ProvRecord") -> "none":
     ensures("index", Idx(self))
 
 
-@contract("prov.model.ProvBundle.records", props=["C18", "C12"])
+@contract("prov.model.ProvBundle.records", props=["C18", "C12", "C13"])
 def records(self: "ProvBundle") -> "Seq[ProvRecord]":
     pure()
     ensures("all-records-in-order", same(result, self._records))
@@ -152,7 +152,7 @@ def StrictSame(v: "Val", w: "Val") -> "bool":
     return same(v, w) or (is_qn(v) and is_qn(w) and as_qn(v).uri == as_qn(w).uri)
 
 
-@contract("prov.model.ProvRecord.formal_attributes", props=["C09", "C08", "C12"])
+@contract("prov.model.ProvRecord.formal_attributes", props=["C09", "C08", "C12", "C13"])
 def formal_attributes(self: "ProvRecord") -> "Seq[Tup[Val,Val]]":
     pure()
     reveal("NormalPair")
@@ -166,7 +166,7 @@ def formal_attributes(self: "ProvRecord") -> "Seq[Tup[Val,Val]]":
     ensures("normal", implies(FormalSingle(self), AllNormal(result)))
 
 
-@contract("prov.model.ProvRecord.extra_attributes", props=["C09", "C08", "C12"])
+@contract("prov.model.ProvRecord.extra_attributes", props=["C09", "C08", "C12", "C13"])
 def extra_attributes(self: "ProvRecord") -> "Seq[Tup[Val,Val]]":
     pure()
     reveal("NormalPair", "canon_in")
@@ -414,7 +414,7 @@ def ProvDocument_bundle(self: "ProvDocument", identifier: "Val") -> "ProvBundle"
 inline("prov.model.NamespaceManager.get_registered_namespaces", "prov.model.ProvBundle.get_registered_namespaces")
 
 
-@contract("prov.model.ProvBundle.namespaces", props=["C09", "C12"])
+@contract("prov.model.ProvBundle.namespaces", props=["C09", "C12", "C13"])
 def ProvBundle_namespaces(self: "ProvBundle") -> "Seq[Ns]":
     pure()
     requires("inv", NSM_Local(self._namespaces))
@@ -467,7 +467,7 @@ def Attached(d: "ProvDocument", arg: "ProvBundle", b: "ProvBundle", u: "str") ->
 
 
 # ---------------------------------------------------------------------------------------------- record copy (C12, C08)
-@contract("prov.model.ProvRecord.copy", props=["C12", "C08"])
+@contract("prov.model.ProvRecord.copy", props=["C12", "C08", "C13"])
 def ProvRecord_copy(self: "ProvRecord") -> "ProvRecord":
     note("the copy belongs to the same bundle object (documented: 'exact copy'); C12's claim is about the record's "
          "own content: a new object with its own attribute table")
@@ -483,3 +483,17 @@ def ProvRecord_copy(self: "ProvRecord") -> "ProvRecord":
     ensures("source-unchanged", same(self._attributes, old(self._attributes)) and same(self._identifier, old(self._identifier)))
     ensures("bundle-records-unchanged", same(self._bundle._records, old(self._bundle._records)))
     ensures("nf", NF(result))
+    # C08: an exact copy - the same type, identifier and attribute pairs
+    reveal("canon_in")
+    axiom("a member of a sequence sits at some index", seq_member_index_lemma(self.attributes))
+    ensures("same-type", same(result._prov_type, self._prov_type))
+    ensures("same-identifier", same(result._identifier, self._identifier))
+    ensures("attributes-kept", forall(lambda u, c: implies(old(vs_has(qm_get(self._attributes, u), c)),
+                                                           vs_has(qm_get(result._attributes, u), c)), "str", "Val"))
+    ensures("listed-pairs-are-stored-pairs",
+            forall(lambda p: implies(seq_has(old(self.attributes), p), old(vs_has(qm_get(self._attributes, PairU(p)), PairC(p)))), "Tup[Val,Val]"),
+            internal=True)
+    ensures("attributes-not-invented", forall(lambda u, c: implies(vs_has(qm_get(result._attributes, u), c),
+                                                                   old(vs_has(qm_get(self._attributes, u), c))), "str", "Val"),
+            using=["listed-pairs-are-stored-pairs"])
+    ensures("same-record-key", EqRecord(result, self), using=["same-type", "same-identifier", "attributes-kept", "attributes-not-invented", "source-unchanged"])
